@@ -1710,6 +1710,46 @@ func directedFeed(w *world) []sop {
 	return ops
 }
 
+// directedDeep: the boundary of reset's deep-reorganisation guard (|old number - new number| > 64 skips the
+// reinjection) and empty branches.  Main chain to #70 with A's nonces 0 and 1 mined in #5 and #6; a side branch
+// #5', #6' from #4 with empty blocks.  From #70: to #5' (difference 65: skipped, nothing reinjected), back to #70
+// (65: skipped; dropped branch empty), to #6' (64: walked; nonces 0 and 1 are reinjected), back to #70 (64: walked;
+// the new branch includes them, the dropped branch is empty).
+func directedDeep(w *world) []sop {
+	b0 := w.chain.head
+	t0 := w.mkTx(0, 0, w.uniquePrice(100), 21000, big.NewInt(100), nil, false)
+	t1 := w.mkTx(0, 1, w.uniquePrice(101), 21000, big.NewInt(100), nil, false)
+	child := func(parent *blockInfo, txs ...*mtx) *blockInfo {
+		st := copySt(parent.st)
+		for _, t := range txs {
+			st[t.from].nonce++
+			st[t.from].bal.Sub(st[t.from].bal, t.cost())
+		}
+		return w.newBlock(parent, parent.block.NumberU64()+1, txs, st, 1000000)
+	}
+	main := []*blockInfo{b0}
+	for n := 1; n <= 70; n++ {
+		switch n {
+		case 5:
+			main = append(main, child(main[n-1], t0))
+		case 6:
+			main = append(main, child(main[n-1], t1))
+		default:
+			main = append(main, child(main[n-1]))
+		}
+	}
+	s5 := child(main[4])
+	s6 := child(s5)
+	return []sop{
+		{kind: "add", class: "directed/deep", t: t0}, {kind: "add", class: "directed/deep", t: t1},
+		{kind: "head", class: "directed/deep-growth-far", nb: main[70]}, // not a child of the old head, difference 70: skipped
+		{kind: "head", class: "directed/deep-65-skipped", nb: s5},
+		{kind: "head", class: "directed/deep-65-skipped-back", nb: main[70]},
+		{kind: "head", class: "directed/deep-64-walked", nb: s6, reinjectWant: []*mtx{t0, t1}, touched: []int{0}},
+		{kind: "head", class: "directed/deep-64-walked-back", nb: main[70]},
+	}
+}
+
 // ---------------------------------------------------------------- concurrent variant (direct oracle only)
 
 func (w *world) runConcurrent(pc poolCfg) {
@@ -1833,6 +1873,10 @@ func main() {
 		st: []acct{{0, big.NewInt(1000000000)}, {0, big.NewInt(1000000000)}}, script: directedRequeue})
 	w.runHistory(poolCfg{name: "default", as: 16, gs: 4096, aq: 64, gq: 1024, bump: 10, nsenders: 2, gp: 1, viaFeed: true,
 		st: []acct{{0, big.NewInt(1000000000)}, {0, big.NewInt(1000000000)}}, script: directedFeed})
+	for _, feed := range []bool{false, true} {
+		w.runHistory(poolCfg{name: "default", as: 16, gs: 4096, aq: 64, gq: 1024, bump: 10, nsenders: 2, gp: 1, viaFeed: feed,
+			st: []acct{{0, big.NewInt(1000000000)}, {0, big.NewInt(1000000000)}}, script: directedDeep})
+	}
 	for _, v := range []string{"equalize", "min"} {
 		w.runHistory(poolCfg{name: "slots", as: 1, gs: 4, aq: 3, gq: 6, bump: 10, nsenders: 3, gp: 1,
 			st: []acct{{0, big.NewInt(1000000000)}, {0, big.NewInt(1000000000)}, {0, big.NewInt(1000000000)}}, script: directedSlots(v)})
